@@ -8,6 +8,7 @@ CONSTANTS
   MaxBars = 2
   MaxTrig = 1
   GuardValues = {}
+  Prepare = TRUE
 INVARIANTS
   PropInv
   ImplInv
